@@ -101,6 +101,10 @@ class ServeManifest(RequestHandlerBase):
         dash = ManifestContext(
             manifest=mft, options=options, stream=current_stream,
             multi_period=None)
+        if not dash.video.representations:
+            # e.g. DRM requested for a stream that has no encrypted media
+            return flask.make_response(
+                'No video representation matches the requested options', 404)
         context = cast(ManifestTemplateContext, self.create_context(
             title=current_stream.title, mpd=dash, options=options,
             mode=mode, stream=current_stream))
